@@ -84,7 +84,8 @@ func (enc *encoder) encodeAny(anyField j5reflect.AnyField) error {
 	var jsonData []byte
 	if val.J5Json != nil {
 		jsonData = val.J5Json
-	} else if val.Proto != nil {
+	} else {
+		// no payload bytes: the proto encoding of a message with no fields set
 
 		mt, err := enc.codec.resolver.FindMessageByName(protoreflect.FullName(val.TypeName))
 		if err != nil {
